@@ -44,6 +44,7 @@ THEOREMS = [
     "KrroodVerif.Json.C19_cex_relative",
     "KrroodVerif.Json.C19_cex_nonclass",
     "KrroodVerif.Json.C19_cex_import_error",
+    "KrroodVerif.Json.C19_cex_abstract",
 ]
 MODEL_FUNCTION = "Json.resolve / Json.fromJson / Json.spec / Json.trigger (Model/Json.lean)"
 TRUSTED = [
@@ -198,6 +199,8 @@ TABLE: List[Tuple[str, List[str]]] = [
     (Z.MOD_A.__name__, ["Node", "Shape", "Dog", "Money", "Cat", "nope"]),
     (Z.MOD_B.__name__, ["Node", "Shape", "Dog", "Money", "NodeA", "nope"]),
     (M18, [c.__name__ for c in Z.SER_CLASSES if c.__module__ == M18] + ["Money", "Money2", "NotSerializable", "Mixin", "PayloadError", "NODE_INSTANCE",
+                                                 "TrackingNumber", "ExpressNumber", "Coin", "RareCoin", "Token", "Ratio",
+                                                 "AbstractNode", "AbstractLeaf", "ConcreteOfAbstract",
                                                  "T_VAR", "a_function", "Alias", "Z", "json", "EXT", "KEY", "Fraction", "Case",
                                                  "node", "NODE"]),
     ("props", ["c18", "c19", "nope"]),
@@ -242,7 +245,9 @@ TOKENS = ["os", "path", "json", "dumps", "props", "c18", "Node", "NodeAAAA", "Mo
 
 def gen_tag_string(rng) -> str:
     r = rng.random()
-    if r < 0.1:  # a deserialisable class, verbatim
+    if r < 0.06:  # looks deserialisable but is not: unregistered subclass of a registered type / abstract serializer
+        return rng.choice(NEAR_MISS_TAGS)
+    if r < 0.16:  # a deserialisable class, verbatim
         return rng.choice(GOOD_TAGS + [c.__module__ + "." + c.__name__ for c in Z.FIXED] + ["uuid.UUID", "fractions.Fraction"])
     if r < 0.35:
         m, attrs = rng.choice(TABLE)
@@ -258,6 +263,8 @@ def gen_tag(rng):
     return gen_tag_string(rng)
 
 
+NEAR_MISS_TAGS = [c.__module__ + "." + c.__name__ for c in Z.UNREGISTERED_SUBCLASSES + Z.ABSTRACT_SERIALIZERS] + \
+    ["krrood.adapters.json_serializer.SubclassJSONSerializer", M18 + ".ConcreteOfAbstract"]
 DOC_STRS = ["", "a", "Rex", "os.path", "12.50", "x y"]
 DOC_CLASSES = Z.GENERIC
 MONEY_TAGS = [c.__module__ + "." + c.__name__ for c in Z.EXT_MONEY]
@@ -297,7 +304,7 @@ def corrupt(rng, j, p: float):
                 r = rng.random()
                 if r < 0.15:
                     continue  # tag dropped
-                out[k] = rng.choice(GOOD_TAGS) if r < 0.4 else gen_tag(rng)
+                out[k] = rng.choice(GOOD_TAGS) if r < 0.4 else rng.choice(NEAR_MISS_TAGS) if r < 0.5 else gen_tag(rng)
             else:
                 out[k] = corrupt(rng, v, p)
         if j.get(KEY) == "uuid.UUID":  # keep krrood's own uuid deserializer on a valid payload
@@ -324,6 +331,8 @@ def _needs_new_tag(d: dict) -> bool:
     cls = _target(d.get(KEY))
     if cls is None or not (issubclass(cls, SubclassJSONSerializer) or cls in EXT) or cls in PAYLOAD_AGNOSTIC:
         return False
+    if issubclass(cls, SubclassJSONSerializer) and not Z.implements_from_json(cls):
+        return False  # never gets as far as a payload
     import uuid as _uuid
     return not (cls is _uuid.UUID and d.get("value") == VALID_PAYLOAD)
 
@@ -431,14 +440,6 @@ def _dispatch_obs(r=None, exc=None) -> str:
 def _classify(e: BaseException) -> str:
     if isinstance(e, PayloadError):
         return _dispatch_obs(exc=e) or "payload"
-    if type(e) is NotImplementedError:
-        # SubclassJSONSerializer._from_json of a class that does not override it: the dispatch happened
-        tb = e.__traceback__
-        while tb.tb_next is not None:
-            tb = tb.tb_next
-        f = tb.tb_frame
-        if f.f_code.co_name == "_from_json" and isinstance(f.f_locals.get("cls"), type):
-            return f"dispatch:{ident(f.f_locals['cls'])}:_from_json"
     return exc_name(e)
 
 
